@@ -10,7 +10,8 @@
 //          variant 0..2 selects the scripted response (status 403/404/200, body "v<k>") resp. redirect (301/302/307, URL "http://r<k>.example/x")
 // scenario: one client connection; request r1 (keep-alive) runs the scripted chains, then request r2
 //   ("Connection: close", all handlers GoOn) probes whether the connection is still open.
-// output: [[calls] status body location xfake xmod contacted open]
+// output: [[calls] status body location xfake xmod contacted open [hdrs]]
+//   hdrs      the reply's Set-Cookie and X-Verif-A fields as "Key: value", keys in that order, values in wire order
 //   calls     every verifmod invocation in order: point*100 + idx*10 + tag (tag 0 session-level, 1 = r1, 2 = r2)
 //   status    status code of the reply to r1 (0 = no byte received), body, Location header, X-Fake (reply came from the
 //             backend), X-Verif-Mod (reply is verifmod's scripted response)
@@ -59,10 +60,17 @@ var points = []int{bfe_module.HandleAccept, bfe_module.HandleHandshake, bfe_modu
 var respStatus = []int{403, 404, 200}
 var redirCode = []int{301, 302, 307}
 
+// extra header fields the scripted module attaches to its Redirect / Response verdicts, per variant (repeated keys!)
+var extraHdr = [][][2]string{
+	nil,
+	{{"Set-Cookie", "a=1"}, {"Set-Cookie", "b=2"}},
+	{{"X-Verif-A", "x"}, {"Set-Cookie", "c=3"}, {"X-Verif-A", "y"}},
+}
+
 func verdict(code int) e2e.Verdict {
 	ret, k := code%10, (code/10)%3
 	return e2e.Verdict{Ret: ret, Status: map[bool]int{true: redirCode[k], false: respStatus[k]}[ret == bfe_module.BfeHandlerRedirect],
-		Body: fmt.Sprintf("v%d", k), URL: fmt.Sprintf("http://r%d.example/x", k)}
+		Body: fmt.Sprintf("v%d", k), URL: fmt.Sprintf("http://r%d.example/x", k), Header: extraHdr[k]}
 }
 
 func impl(in hv.Val) hv.Val {
@@ -109,6 +117,7 @@ func impl(in hv.Val) hv.Val {
 	defer c.Close()
 	c.Send([]byte("GET /a HTTP/1.1\r\nHost: example.org\r\nX-Verif-Id: r1\r\nX-Verif-Script: s1\r\n\r\n"))
 	status, body, loc, xfake, xmod, open := 0, []byte{}, "", 0, 0, 0
+	hdrs := hv.L{}
 	r, err := c.ReadResponse()
 	if err == nil {
 		status, body, loc = r.Status, r.Body, r.Header.Get("Location")
@@ -117,6 +126,11 @@ func impl(in hv.Val) hv.Val {
 		}
 		if r.Header.Get("X-Verif-Mod") != "" {
 			xmod = 1
+		}
+		for _, k := range []string{"Set-Cookie", "X-Verif-A"} {
+			for _, v := range r.Header[k] {
+				hdrs = append(hdrs, hv.S(k+": "+v))
+			}
 		}
 		c.Send([]byte("GET /b HTTP/1.1\r\nHost: example.org\r\nX-Verif-Id: r2\r\nConnection: close\r\n\r\n"))
 		r2, err2 := c.ReadResponse()
@@ -147,7 +161,7 @@ func impl(in hv.Val) hv.Val {
 	if calls == nil {
 		calls = hv.L{}
 	}
-	return hv.L{calls, hv.I(status), hv.B(body), hv.S(loc), hv.I(xfake), hv.I(xmod), hv.I(contacted), hv.I(open)}
+	return hv.L{calls, hv.I(status), hv.B(body), hv.S(loc), hv.I(xfake), hv.I(xmod), hv.I(contacted), hv.I(open), hdrs}
 }
 
 func chain(r *hv.Rng, h int, mode int) hv.Val {
